@@ -40,6 +40,10 @@ pub fn run(case: &str, args: &[String]) -> Option<Value> {
         "idv.room_id" => res(idv::room_id::validate(&a[0])),
         "idv.room_alias_id" => res(idv::room_alias_id::validate(&a[0])),
         "idv.room_id_or_alias_id" => res(idv::room_id_or_alias_id::validate(&a[0])),
+        "idc.room_version_id" => res(idv::room_version_id::validate(&a[0])),
+        "idc.client_secret" => res(idv::client_secret::validate(&a[0])),
+        "idc.base64_public_key" => res(idv::base64_public_key::validate(&a[0])),
+        "idc.server_signing_key_version" => res(idv::server_signing_key_version::validate(&a[0])),
         "ids.mxc_parts" => {
             let m = <&ruma_common::MxcUri>::from(a[0].as_str());
             res(m.parts().map(|(s, m)| (s.as_str().to_owned(), m.to_owned())))
